@@ -17,6 +17,32 @@ def _work(payload, skip, report):
     return out
 
 
+def _work_deaf(payload, skip, report):
+    """A work function that ignores `skip`: the pool itself must turn the repeated hang into a violation."""
+    from .runner import Acc
+    acc = Acc("SELFTEST")
+    for i, x in enumerate(payload):
+        report(i)
+        if x == "hang":
+            time.sleep(30)
+        acc.case()
+    return acc
+
+
+def _work_many(payload, skip, report):
+    from .runner import Acc
+    acc = Acc("SELFTEST")
+    for i, x in enumerate(payload):
+        if i in skip:
+            acc.violation("returns", {"i": i}, "hang", "returns")
+            continue
+        report(i)
+        if x == "hang":
+            time.sleep(30)
+        acc.case()
+    return acc
+
+
 def main():
     import wikitextprocessor
     from .fixtures import close_ctx, new_ctx
@@ -30,5 +56,12 @@ def main():
     res = dict((cid, (r, h)) for cid, r, h in run_chunks(_work, [[1, 2, 3], [1, "hang", 3]], nproc=2, case_timeout=1.5))
     assert res[0] == (3, []), res
     assert res[1] == (1002, [1]), res
+    from .runner import Acc
+    Acc("SELFTEST")
+    res = dict((cid, (r, h)) for cid, r, h in run_chunks(_work_deaf, [[1, 2], [1, "hang", 3]], nproc=2, case_timeout=1.0))
+    assert res[0][0].n == 2 and not res[0][0].viol, res
+    assert list(res[1][0].viol) == ["returns_in_time"], res[1][0].viol
+    res = dict((cid, (r, h)) for cid, r, h in run_chunks(_work_many, [["hang"] * 5 + [1, 1]], nproc=1, case_timeout=1.0))
+    assert len(res[0][0].viol["returns"]) == 3 and res[0][0].n == 0, (res[0][0].viol, res[0][0].n)   # abandoned after three hangs
     print("selftest ok: wikitextprocessor from", wikitextprocessor.__file__)
     return 0
